@@ -6,6 +6,7 @@
 #pragma once
 #include <array>
 #include <cmath>
+#include <memory>
 #include <optional>
 
 #include "coloquinte.hpp"
@@ -85,6 +86,49 @@ inline Spec decode(const std::string &str) {
 }
 
 inline uint64_t hashSpec(const Spec &s) { return vf::fnv(encode(s)); }
+
+// ---- magnitude transforms -------------------------------------------------
+// The properties are invariant under translation of the whole circuit and under anisotropic scaling of x (widths, x
+// positions, x pin offsets) and of y (heights, row heights, y positions, y pin offsets): both map legal placements to
+// legal placements and multiply wirelengths.  The tiny alphabets only reach small numbers; these transforms carry the
+// same shapes to coordinates beyond 2^24 (where float loses the unit) and to products beyond 2^31.
+inline Spec translated(const Spec &s, int dx, int dy) {
+  Spec t = s;
+  for (auto &r : t.rows) { r.minX += dx; r.maxX += dx; r.minY += dy; r.maxY += dy; }
+  for (auto &c : t.cells) { c.x += dx; c.y += dy; }
+  return t;
+}
+inline Spec scaled(const Spec &s, int sx, int sy) {
+  Spec t = s;
+  for (auto &r : t.rows) { r.minX *= sx; r.maxX *= sx; r.minY *= sy; r.maxY *= sy; }
+  for (auto &c : t.cells) {
+    bool tu = c.orient == 2 || c.orient == 3 || c.orient == 6 || c.orient == 7;  // raw width lies along y when turned
+    c.w *= tu ? sy : sx;
+    c.h *= tu ? sx : sy;
+    c.x *= sx;
+    c.y *= sy;
+  }
+  for (auto &n : t.nets)
+    for (auto &p : n.pins) {
+      const CellSpec &c = s.cells[p[0]];
+      bool tu = c.orient == 2 || c.orient == 3 || c.orient == 6 || c.orient == 7;
+      p[1] *= tu ? sy : sx;
+      p[2] *= tu ? sx : sy;
+    }
+  return t;
+}
+struct Magnitude { int kind, a, b; };  // kind 0 translate (a,b), 1 scale (a,b)
+// Wraps an instance sink: every instance is passed on, and every `every`-th one also in each magnitude variant.
+inline std::function<void(const Spec &)> withMagnitudes(const std::function<void(const Spec &)> &f, int every, std::vector<Magnitude> variants,
+                                                        std::function<bool(const Spec &)> eligible = nullptr) {
+  auto counter = std::make_shared<long long>(0);
+  return [=](const Spec &s) {
+    f(s);
+    if (eligible && !eligible(s)) return;
+    if ((*counter)++ % every != 0) return;
+    for (auto &m : variants) f(m.kind == 0 ? translated(s, m.a, m.b) : scaled(s, m.a, m.b));
+  };
+}
 
 // ------------------------------------------------------------ parameters
 enum Field {
